@@ -8,6 +8,9 @@ import QModel.RunLoopIO
 import QModel.FilesIO
 import QModel.FBMCIO
 import QModel.ProtocolIO
+import QModel.CalcIO
+import QModel.SeedIO
+import QModel.SchedIO
 /-! Model driver: one operation per line on stdin, one canonical result line on stdout.
     Run with `lake env lean --run Driver.lean`. -/
 
@@ -25,6 +28,9 @@ def dispatch (line : String) : String :=
     else if cmd = "files" || cmd = "fcall" then Files.handle ws
     else if cmd = "fbgamma" || cmd = "fbprob" || cmd = "fbstep" then FB.handle ws
     else if cmd = "p20" then Proto20.handle ws
+    else if cmd = "mc" then MC.handle ws
+    else if cmd = "seed" || cmd = "seedrt" || cmd = "seedrun" then Seed.handle ws
+    else if cmd = "yield" || cmd = "step" || cmd = "addmoves" || cmd = "rng" then Sched.handle ws
     else "bad-op"
 
 partial def loop (h : IO.FS.Stream) (out : IO.FS.Stream) : IO Unit := do
